@@ -195,6 +195,30 @@ def check_site(prog, rep, entry, site, np_funcs, kind, np_path=None):
         depth_vals = eval_in_scope(prog, f, elts, pair=not isinstance(d, (ast.Tuple, ast.List, ast.Dict)))
         fp = footprint_of(prog, kern, npos, bound=tuple(pb or ()))
         if fp is None:
+            # not derivable - but a reduction over the block itself (`data.min()`, `np.nanmax(data)`, `data[mask].max()`) is
+            # decided without a footprint: the block function sees one chunk plus halo, so what it computes from the block as
+            # a whole differs from chunk to chunk
+            arrp = kern.params[npos] if npos < len(kern.params) else None
+            reds = []
+            for c_ in calls(kern.node):
+                if short(c_) not in REDUCERS or c_ not in kern.own_nodes():
+                    continue
+                tgt = c_.func.value if isinstance(c_.func, ast.Attribute) and not (
+                    isinstance(c_.func.value, ast.Name) and c_.func.value.id in ('np', 'numpy', 'da')) else (c_.args[0] if c_.args else None)
+                base = tgt
+                whole = True
+                while isinstance(base, ast.Subscript):
+                    # a boolean-mask selection is still "the block"; an index / slice is a neighbourhood
+                    sl = base.slice
+                    whole = whole and isinstance(sl, ast.Name)
+                    base = base.value
+                if isinstance(base, ast.Name) and base.id == arrp and whole and not any(k_.arg == 'axis' for k_ in c_.keywords):
+                    reds.append(c_)
+            if reds:
+                rep.add('H1', f, entry, '%s: %s' % (kern.qualname, norm(reds[0])), reds[0].lineno, False,
+                        'a function mapped over chunks must compute every cell from that cell\'s neighbourhood: `%s` reduces over the '
+                        'whole block (chunk plus halo), so the result depends on the chunking' % norm(reds[0]))
+                return
             rep.add('H1', f, entry, text, site.call.lineno, None, 'footprint of %s not derivable' % kern.qualname)
             return
         lo, hi, data = fp
